@@ -104,7 +104,7 @@ func reservedElem(r *rand.Rand) string {
 }
 
 func dotElem(r *rand.Rand) string {
-	return pick(r, ".", "..", "...", ".a", "a.", ".git", ".hidden", "a..b", "a...b", "..a", "a..", ".a.", "a.b.", ".a.b", "-a", "a-", "-", "--", "-.", ".-", "_", "~", "a.-b", "._")
+	return pick(r, ".", "..", "...", ".a", "a.", ".git", ".hidden", "a..b", "a...b", "..a", "a..", ".a.", "a.b.", ".a.b", "-a", "a-", "-", "--", "-.", ".-", "_", "~", "a.-b", "._", ".~1", ".~12", ".a~1", ".~1.x", ".x~", ".con", ".nul.txt")
 }
 
 func punctElem(r *rand.Rand) string {
